@@ -99,6 +99,8 @@ def main():
     specs = []
     items = []
     dyn = [n for n in order if klass(n) in ('table', 'dynvec', 'option', 'union')]
+    if os.environ.get('ONLY'):
+        dyn = [n for n in dyn if n in os.environ['ONLY'].split(',')]
     need = set()
     for n in dyn:
         kind, payload, _f = types[n]
@@ -177,7 +179,10 @@ path = "impl molecule::prelude::Reader<'r> for %sReader<'r>::fn verify"
 result = "r"
 ensures = ["C15.dyn.%s.decoding_accepts_exactly_the_well_formed_encodings_of_the_schema: (r is Ok) == ok_%s(slice@, compatible)"]''' % (f, n, n, n)
         if k == 'option':
-            items.append(head)
+            items.append(head + '''
+  [[item.proof]]
+  at = "start"
+  text = "assert(slice@.subrange(0, slice@.len() as int) =~= slice@);"''')
         elif k == 'union':
             items.append(head + ABSTR_VE)
         elif k == 'table' and not payload:
@@ -211,7 +216,7 @@ hoist_as = "%s"''' % (f, n, idx, c))
   text = "lemma_offsets(slice@, offsets@);"
   [[item.proof]]
   before = "%s::verify(&slice[offsets[0]..offsets[1]], compatible)?;"
-  text = "lemma_monotone(slice@, offsets@);"''' % (c, reader(payload[0][1])))
+  text = "lemma_monotone(slice@, offsets@); assert(offsets@.len() >= %d); assert(offsets@[offsets@.len() - 1] == slice@.len()); %s assert(offsets@[%d] <= offsets@[offsets@.len() - 1]);"''' % (c, reader(payload[0][1]), len(payload) + 1, ' '.join('assert(offsets@[%d] <= offsets@[%d]);' % (q, q + 1) for q in range(len(payload))), len(payload)))
         elif k == 'dynvec':
             items.append(head + ABSTR_VE + '''
   [[item.abstract]]
@@ -230,10 +235,13 @@ hoist_as = "%s"''' % (f, n, idx, c))
   [[item.proof]]
   before = "for pair in"
   text = "lemma_monotone(slice@, offsets@);"
+  [[item.proof]]
+  before = "%s::verify(&slice[start..end], compatible)?;"
+  text = "let k = it.index@ as int; assert(pair@ == offsets@.subrange(k, k + 2)); assert(start == offsets@[k] && end == offsets@[k + 1]); assert(start == offs(slice@, k) && end == offs(slice@, k + 1));"
   [[item.loop]]
   k = 0
   iter = "it"
-  invariant = ["C15.dyn.%s.loop.items_so_far_are_well_formed: it.seq().len() == offsets@.len() - 1 && (forall|i: int| 0 <= i < it.seq().len() ==> (#[trigger] it.seq()[i])@ == offsets@.subrange(i, i + 2)) && dynvec_header_ok(slice@) && offsets@.len() == item_count(slice@) + 1 && (forall|i: int| 0 <= i < offsets@.len() ==> offsets@[i] == #[trigger] offs(slice@, i)) && (forall|i: int, j: int| 0 <= i <= j < offsets@.len() ==> offsets@[i] <= offsets@[j]) && offsets@[offsets@.len() - 1] == slice@.len() && (forall|i: int| 0 <= i < it.index@ ==> %s)"]''' % (n, ok(payload, 'slice@.subrange(#[trigger] offs(slice@, i), offs(slice@, i + 1))').replace(', c)', ', compatible)')))
+  invariant = ["C15.dyn.%s.loop.items_so_far_are_well_formed: it.seq().len() == offsets@.len() - 1 && (forall|i: int| 0 <= i < it.seq().len() ==> (#[trigger] it.seq()[i])@ == offsets@.subrange(i, i + 2)) && dynvec_header_ok(slice@) && offsets@.len() == item_count(slice@) + 1 && (forall|i: int| 0 <= i < offsets@.len() ==> offsets@[i] == #[trigger] offs(slice@, i)) && (forall|i: int, j: int| 0 <= i <= j < offsets@.len() ==> offsets@[i] <= offsets@[j]) && offsets@[offsets@.len() - 1] == slice@.len() && (forall|i: int| 0 <= i < it.index@ ==> %s)"]''' % (reader(payload), n, ok(payload, 'slice@.subrange(#[trigger] offs(slice@, i), offs(slice@, i + 1))').replace(', c)', ', compatible)')))
 
     names = {k_: [n for n in dyn if klass(n) == k_] for k_ in ('table', 'dynvec', 'option', 'union')}
     head = '''# GENERATED by tools/gen_c15_dyn.py from the three .mol schemas -- edit the generator, not this file
@@ -242,6 +250,7 @@ engine = "verus"
 serves = ["C15", "C16"]
 tier   = "quick"
 rlimit = 80
+canary_only = ["for ScriptReader<", "for BytesVecReader<", "for ScriptOptReader<", "for RelayMessageReader<", "for InIBDReader<"]
 claim  = "decoding accepts exactly the well-formed encodings of the schema, for every byte string of every length (no bound) and without any out-of-range slice access or arithmetic overflow: for each of the %d tables, %d dynamic vectors, %d options and %d unions of blockchain.mol, extensions.mol and protocols.mol, the generated Reader::verify returns Ok iff the bytes satisfy the acceptance predicate derived from the schema -- total size field equal to the length, offset table 4-aligned, at least 8, inside the bytes and non-decreasing, exactly the schema's field count (at least that many in compatible mode), every field / item / option payload / union arm (selected by the 4-byte item id) being the sub-slice between consecutive offsets and itself accepted by its own type's predicate; so a byte string accepted by strict decoding is laid out field by field as the canonical encoding is, with the fields tiling the body"
 prelude = ["opaque_iter.rs"]
 uses_outside = []
@@ -253,13 +262,22 @@ trusted = [
   "TRANSFORMATION 20: the associated const FIELD_COUNT of each table reader is hoisted to a free const (same text, new name) and `Self::FIELD_COUNT` redirected to it",
   "abstracted (transformation 15): every `ve!(Self, ..)` error constructor (molecule's verification_error! macro) as an opaque Err value",
   "the acceptance predicates are generated from the .mol schema files (tools/gen_c15_dyn.py); the Reader::verify of the fixed-size structs / arrays and of the fixed-item vectors are the contracts proved in units c15_fixed_verify and c15_fixvec",
+  "VACUITY GUARD: the contracts have no preconditions, so an inconsistency could only sit in the shared prelude; the `ensures false` canary is run on one reader per kind (table Script, empty table InIBD, dynamic vector BytesVec, option ScriptOpt, union RelayMessage), not on all 92",
   "NOT DECIDED here: the accessors of the readers and entities, builders (encode), JSON, hashes",
 ]
 
 prelude_text = \'\'\'
 global size_of usize == 8;
 #[verifier::external_body] pub struct VerificationError { _x: u64 }
-pub open spec fn num_at(s: Seq<u8>, p: int) -> int { s[p] as int + 256 * (s[p + 1] as int) + 65536 * (s[p + 2] as int) + 16777216 * (s[p + 3] as int) }
+pub mod numlem {
+    use vstd::prelude::*;
+    // the little-endian number at position p; opaque to the solver except through the two lemmas below
+    #[verifier::opaque] pub open spec fn num_at(s: Seq<u8>, p: int) -> int { s[p] as int + 256 * (s[p + 1] as int) + 65536 * (s[p + 2] as int) + 16777216 * (s[p + 3] as int) }
+    pub broadcast proof fn lemma_num_at_range(s: Seq<u8>, p: int) ensures 0 <= #[trigger] num_at(s, p) < 0x1_0000_0000 { reveal(num_at); }
+    pub broadcast proof fn lemma_num_at_sub(s: Seq<u8>, a: int, b: int) requires 0 <= a, a + 4 <= b <= s.len() ensures #[trigger] num_at(s.subrange(a, b), 0) == num_at(s, a) { reveal(num_at); }
+}
+pub use numlem::num_at;
+broadcast use {numlem::lemma_num_at_range, numlem::lemma_num_at_sub};
 pub struct ByteReader<'r>(pub &'r [u8]);
 pub mod molecule {
     use super::*;
@@ -299,7 +317,7 @@ pub open spec fn dynvec_header_ok(s: Seq<u8>) -> bool { s.len() >= 4 && num_at(s
 pub proof fn lemma_offsets(s: Seq<u8>, o: Seq<usize>)
     requires s.len() >= 8, num_at(s, 4) %% 4 == 0, num_at(s, 4) >= 8, s.len() >= num_at(s, 4), o.len() == item_count(s) + 1, o[o.len() - 1] == s.len(),
         forall|i: int| 0 <= i < o.len() - 1 ==> #[trigger] o[i] as int == num_at(s, 4 + 4 * i)
-    ensures forall|i: int| 0 <= i < o.len() ==> o[i] == #[trigger] offs(s, i), o[0] == num_at(s, 4) || o.len() == 1
+    ensures forall|i: int| #![trigger o[i]] #![trigger offs(s, i)] 0 <= i < o.len() ==> o[i] == offs(s, i), o[0] == num_at(s, 4) || o.len() == 1
 { }
 pub proof fn lemma_monotone(s: Seq<u8>, o: Seq<usize>)
     requires o.len() >= 1, forall|i: int| 0 <= i && i + 1 < o.len() ==> #[trigger] o[i] <= o[i + 1]
@@ -315,7 +333,7 @@ pub proof fn lemma_mono_ij(o: Seq<usize>, i: int, j: int)
 %s
 \'\'\'
 ''' % (len(names['table']), len(names['dynvec']), len(names['option']), len(names['union']), digest.hexdigest(), '\n'.join(specs))
-    out = os.path.join(ROOT, os.environ.get('C15_DYN_DIR', 'wip'), 'c15_dyn.toml')
+    out = os.path.join(ROOT, os.environ.get('C15_DYN_DIR', 'contracts'), 'c15_dyn.toml')
     only = os.environ.get('ONLY')
     open(out, 'w').write(head + ''.join(items))
     print('c15_dyn: %d readers under contract (%s), %d callee contracts' % (len(dyn), ', '.join('%d %s' % (len(v), k_) for k_, v in names.items()), len(declared)))
